@@ -416,6 +416,7 @@ def run_registry(prop, tier, seed):
         configs.append(("alg", dict(depth=2 if q else 3, ops="", universe=1)))
         configs.append(("alg_seeded", dict(depth=1 if q else 2, ops="", universe=1, seeds=1)))
         configs.append(("roots", dict(depth=2 if q else 3, ops="roots", universe=1, seeds=1)))
+        configs.append(("ratio", dict(depth=3 if q else 4, ops="ratio", universe=1, seeds=1)))
         configs.append(("touch", dict(depth=2, ops="touch", universe=1, seeds=0 if q else 1)))
         configs.append(("foreign", dict(depth=2, ops="foreign", universe=1, seeds=1, foreign=1 if q else 2, kinds=2)))
         if not q:
